@@ -261,6 +261,7 @@ pub fn run(prop: &str, tier: &str, seed: u64, out: &mut dyn Write) {
         }
         _ => {}
     }
+    crate::orc_d::families_agree(&mut ctx, prop, tier, seed);
     ctx.finish();
 }
 
